@@ -200,6 +200,9 @@ cdef class cyBQM_template(cyQMBase):
     def add_quadratic(self, u, v, bias_type bias):
         if u == v:
             raise ValueError(f"{u!r} cannot have an interaction with itself")
+        if v is None:
+            raise ValueError("unknown variable None")
+        hash(v), self.variables.count(v)  # an unusable second label must raise before the first one is added
 
         cdef Py_ssize_t ui = self._index(u, permissive=True)
         cdef Py_ssize_t vi = self._index(v, permissive=True)
@@ -382,6 +385,9 @@ cdef class cyBQM_template(cyQMBase):
     def set_quadratic(self, u, v, bias_type bias):
         if u == v:
             raise ValueError(f"{u!r} cannot have an interaction with itself")
+        if v is None:
+            raise ValueError("unknown variable None")
+        hash(v), self.variables.count(v)  # an unusable second label must raise before the first one is added
 
         cdef Py_ssize_t ui = self._index(u, permissive=True)
         cdef Py_ssize_t vi = self._index(v, permissive=True)
